@@ -11,7 +11,7 @@
 (*   f    sequence of lock files        <<owner, time, exclusive>>         *)
 (*   p    sequence, one per process     <<believes, ctxAlive, exclusive,   *)
 (*                                        robbed, stall, clean, faulted,   *)
-(*                                        newest>>                         *)
+(*                                        newest, robbedAt>>               *)
 (*   r    sequence of remote holders    <<time, exclusive>>                *)
 (* believes = Lock() returned success and the process neither called       *)
 (* Unlock nor died; ctxAlive = the context returned by Lock() is not       *)
@@ -19,7 +19,9 @@
 (* stall = total time (ms) the process was stalled inside backend          *)
 (* operations so far; clean = finished by Unlock() without any injected    *)
 (* fault/removal/cancel; faulted = a Save/Remove fault was ever injected;  *)
-(* newest = time of the newest lock file the process saved (-1: none).     *)
+(* newest = time of the newest lock file the process saved (-1: none);     *)
+(* robbedAt = time (ms) somebody else last removed a lock file of the      *)
+(* process (meaningful when robbed = 1).                                   *)
 (* A remote holder is a process on another host that saved a lock file at  *)
 (* `time` and follows the protocol: it stops using the repository when it  *)
 (* could not refresh for RefreshTO.                                        *)
@@ -34,6 +36,7 @@ Holds(o, i)   == o.p[i][1] = 1 /\ o.p[i][2] = 1     \* the process uses the repo
 IsExcl(o, i)  == o.p[i][3] = 1
 Robbed(o, i)  == o.p[i][4] = 1
 StallOf(o, i) == o.p[i][5]
+RobbedAt(o, i) == o.p[i][9]
 RemoteHolds(o, k) == o.now - o.r[k][1] < RefreshToMs
 
 \* C12: an exclusive lock never coexists with another active lock
@@ -41,6 +44,20 @@ Exclusion(o) ==
   /\ \A i, j \in 1..Len(o.p) : (i # j /\ Holds(o, i) /\ IsExcl(o, i)) => ~Holds(o, j)
   /\ \A i \in 1..Len(o.p), k \in 1..Len(o.r) :
         (Holds(o, i) /\ RemoteHolds(o, k)) => (~IsExcl(o, i) /\ o.r[k][2] = 0)
+
+\* C12 with the premise spelled out.  A third party whose clock is ahead by up to the documented margin (7.5 min)
+\* may remove the lock file of a live holder as soon as it is older than 22.5 min, i.e. at the very moment the
+\* holder's expiry monitor forces a refresh (the monitor's time stamp lags the lock file's by the duration of the
+\* last refresh).  The robbed holder notices at the next existence check of its forced refresh: until then it may
+\* coexist with a newcomer, but only for the polling/waiting times of the protocol (slack) plus the time the
+\* environment stalled it inside backend operations.
+Excused(o, i, slack) == Robbed(o, i) /\ o.now - RobbedAt(o, i) <= slack + StallOf(o, i)
+ExclusionMargin(o, slack) ==
+  /\ \A i, j \in 1..Len(o.p) : (i # j /\ Holds(o, i) /\ IsExcl(o, i) /\ Holds(o, j)) =>
+        (Excused(o, i, slack) \/ Excused(o, j, slack))
+  /\ \A i \in 1..Len(o.p), k \in 1..Len(o.r) :
+        (Holds(o, i) /\ RemoteHolds(o, k)) => (~IsExcl(o, i) /\ o.r[k][2] = 0)
+ExclusionWithinMargin(o) == ExclusionMargin(o, SlackMs)
 
 OwnFiles(o, i) == {k \in 1..Len(o.f) : o.f[k][1] = i}
 
